@@ -25,6 +25,12 @@ def run(env, tier, seed, broken=None):
              '%s (%s i = 0;; i = i + 1) { %s (i == 3) { %s; } %s i; }\n' % (FOR, VAR, IF, BREAK, PRINT),
              '%s i = 0;\n%s (;;) { i = i + 1; %s (i > 2) { %s; } %s (i == 1) { %s; } %s i; }\n%s i;\n' % (VAR, FOR, IF, BREAK, IF, CONTINUE, PRINT, PRINT),
              '%s (%s i = 0; i < 3; i = i + 1) %s i;\n' % (FOR, VAR, PRINT), '%s i = 0;\n%s (i < 3) i = i + 1;\n%s i;\n' % (VAR, WHILE, PRINT)]
+    extra += [
+        '%s i;\n%s (i = 0; i < 5; i = i + 1) { %s (i == 2) { %s; } %s i; }\n%s "after"; %s i;\n' % (VAR, FOR, IF, BREAK, PRINT, PRINT, PRINT),
+        '%s n = 0;\n%s (%s i = 0; i < 5; n = n + 1) { i = i + 1; %s (i == 3) { %s; } %s (i == 1) { %s; } %s i; }\n%s n;\n' % (VAR, FOR, VAR, IF, BREAK, IF, CONTINUE, PRINT, PRINT),
+        '%s n = 0;\n%s (n < 6) { n = n + 1; %s (%s j = 0; j < 3; n = n + 1) { j = j + 1; %s (j == 2) { %s; } } %s n; }\n' % (VAR, WHILE, FOR, VAR, IF, BREAK, PRINT),
+        '%s t(x) { %s x; %s x; }\n%s (%s i = t(0); t(i) < 2; i = t(i + 1)) { %s "body"; }\n' % (FUN, PRINT, RETURN, FOR, VAR, PRINT),
+    ]
     for v in ['0', '1', '""', '"a"', NIL, TRUE, FALSE, '[]', '{}', '0.0', '2 ** 1024 - 2 ** 1024', '-0', LEN]:
         extra.append('%s (%s) { %s "T"; } %s { %s "F"; }\n%s c = 0;\n%s (%s) { c = c + 1; %s (c > 1) { %s; } %s c; }\n' % (IF, v, PRINT, ELSE, PRINT, VAR, WHILE, v, IF, BREAK, PRINT))
     for e in extra:
